@@ -175,6 +175,34 @@ func runC16(c *an.Ctx) {
 				}
 				leaves(pe.Val, pe.Facts, 0)
 			}
+			// the walk reads only heights the store already has: store.GetByHeight blocks on a height above
+			// the store's own height (it waits for that header to be appended), and during Start nothing appends
+			nRead := 0
+			onStore := func(s string) bool { return s == "p0.store" || strings.HasPrefix(s, "p0.store.") }
+			storeHeights := map[string]bool{}
+			for _, hc := range invokesOf(ft, "Height", onStore) {
+				storeHeights[ft.Of(hc)] = true
+			}
+			for _, gc := range invokesOf(ft, "GetByHeight", onStore) {
+				if len(gc.Call.Args) != 2 || ft.Of(gc.Call.Args[1]) != ft.Of(walk) {
+					continue
+				}
+				nRead++
+				okStored := false
+				fs := ff.AtInstr(gc)
+				for _, f := range fs {
+					if f.Op != "LT" {
+						continue
+					}
+					isStoreHeight := func(s string) bool { return storeHeights[s] }
+					// walk < store.Height()   or   !(store.Height() < walk)
+					if (f.Pos && f.A == ft.Of(walk) && isStoreHeight(f.B)) || (!f.Pos && f.B == ft.Of(walk) && isStoreHeight(f.A)) {
+						okStored = true
+					}
+				}
+				c.Check(okStored, "C16.c", "walk-reads-only-stored-heights", "the window search asks the store only for heights not above the store's own height (a read above it would wait for a header nobody appends while Start/Head is computing the tail)", find, gc, "", fs)
+			}
+			c.Min("C16.c", "store reads of the window search", nRead, 1)
 			c.Min("C16.c", "upward steps of the window search", nStep, 1)
 			c.Min("C16.c", "estimates feeding the window search", nInit, 2)
 		}
